@@ -7,15 +7,20 @@ PROP = {
     # n >= 20000 selects the full structured sweeps
     "n": {"quick": 300, "thorough": 20000},
     "theorems": ["wf_result_sound", "guards_det_sound", "exactly_one_sound", "wf_expr_constructors", "oracle_sound", "env_ok_satisfiable"],
-    "rule": "inputs are a pure function of (seed, n, index): a regression corpus, then per translator x policy a structured sweep "
-            "(MIPS/PPC: every major opcode x every function / extended-opcode field x boundary register and immediate fields; A64: every value of "
-            "bits 31..21 x boundary Rm/imm6/Rn/Rd fields; x86/amd64: every one-byte and 0F-two-byte opcode x 28 ModRM/SIB/immediate suffixes x prefixes x "
-            "truncations to 1..15 bytes), then n random inputs per configuration; load addresses include 0, 2^32-4, 2^64-16. Every input is lifted twice "
-            "in a child process under catch_unwind. ONLY DISTINCT SHAPES are sent to Coq: an input becomes a case iff it shows an instruction-graph "
-            "shape, a successor-list shape, an error/panic site or a known-finding class that no earlier input showed (shape = dump with names, "
-            "addresses and constants wider than one bit renamed by first occurrence; the validators are conjunctions over instruction graphs and the "
-            "successor list and only look at widths, structure, syntactic equality and 1-bit constants). non-trivial = the result holds at least one IL "
-            "instruction; distinct by the set of shape hashes. evidence 'extra' records how many inputs were lifted per segment and per outcome.",
+    "rule": "inputs are a pure function of (seed, n, index): a regression corpus, then per translator x policy a structured sweep in which every field "
+            "that selects an operand KIND or width is enumerated and register / immediate VALUE fields take boundary values "
+            "(MIPS: every major opcode x every function code x every shamt for SPECIAL/2/3, all REGIMM / COPz selectors, each word alone and with a delay-slot nop; "
+            "PPC: every primary opcode x all 1024 extended opcodes x Rc, every BO x BI; A64: every value of bits 31..21 x every value of bits 15..10 "
+            "(option, imm3, opcode, index mode), add/sub extended-register: all options x imm3 x 12 register patterns, shifted-register imm6 in {0,1,31,32,63}; "
+            "x86/amd64: every one-byte and 0F-two-byte opcode x 28 ModRM/SIB/immediate suffixes x {no prefix, 67, one rotating of 12 others} x truncations, "
+            "plus 67 / 67 66 / 67 48 / 67 4c-prefixed lea, mov, add, movzx, movsx, movsxd, xchg, cmp x every suffix), then n random inputs per configuration; "
+            "load addresses include 0, 2^32-4, 2^64-16. Every input is lifted twice in a child process under catch_unwind. ONLY DISTINCT SHAPES are sent to Coq: an "
+            "input becomes a case iff it shows an instruction-graph shape, a successor-list shape, an error/panic site or a known-finding class that no earlier input "
+            "showed (shape = dump with names, addresses and constants wider than one bit renamed by first occurrence; the validators are conjunctions over instruction "
+            "graphs and the successor list and only look at widths, structure, syntactic equality and 1-bit constants), and carries only those graphs. "
+            "Known-finding classes are exact decode-level predicates (x86: prefixes + opcode + ModRM form at the instruction starts reported by the lifter; A64: bit "
+            "pattern of a word); a tagged case names the single clause it may violate and its TIE fails if anything else fails (then it is a VIOLATION). "
+            "non-trivial = the result holds at least one IL instruction; distinct by the set of shape hashes. evidence 'extra' records inputs per segment and outcome.",
     "trusted_base": [KERNEL, HARNESS_TB, "Exec/Sem.v `den` (the IL's denotation, shared specification)",
                      "the shape abstraction used to deduplicate dumps before they are sent to Coq (harness c05.rs `shapes`)"],
     "assumptions": ["a guard that contains a division is rejected (it could fault); widths above 4096 bits are rejected",
